@@ -46,7 +46,7 @@ func runC01(c *Ctx) {
 	r.Rule("totality", "no blocking operation reachable from Parse; loops on the Parse path terminate", 1)
 
 	sink := newBoundsSink(c)
-	cfg := absint.Config{CapRule: true, DecodeLenCap: true, Opaque: parseOpaque}
+	cfg := absint.Config{CapRule: true, DecodeLenCap: true, Opaque: parseOpaque, MaxStates: 1024}
 	in := absint.New(c.P, cfg, sink.sink)
 	root := c.P.Pkg("")
 
